@@ -14,7 +14,7 @@ macro "epv_positivity" : tactic =>
   `(tactic| (simp only [epv_tree] at *
              (try split_ifs at *) <;> first
                | epv_absurd
-               | (simp only [epv_leaf, epv_cond, not_le, not_lt] at *; positivity)))
+               | (simp only [epv_leaf, epv_cond, not_le, not_lt] at *; first | positivity | (simp only [mul_assoc, ← sq]; positivity) | (ring_nf; positivity))))
 
 
 /-- go to the leaf the hypotheses select: split the tree, refute the other paths by linear arithmetic,
